@@ -26,7 +26,8 @@ const Rule = "cases = (implementation, comparator min|max|half and the non-norma
 	"universe (dense duplicates; occasionally 0-40 or only 2 values for long runs of ties), every " +
 	"inserted value distinct so a wrong pair is visible, phases of filling and draining, Merge between heaps " +
 	"built in the same case with BOTH heaps used afterwards (receiver fresh / drained / DeleteAll-ed / non-empty, " +
-	"operand empty or not, the same operand merged again, self-merge), long insert/delete churn crossing " +
+	"operand empty or not, the same operand merged again, self-merge, and Merge with an operand of another type - a " +
+	"non-empty heap of the other mergeable implementation and the nil interface - which must change neither side), long insert/delete churn crossing " +
 	"binary-heap resize boundaries, state dumps " +
 	"(array / forest in root-list order) after mutations; non-trivial = at least one operation whose " +
 	"consolidation linked >= 2 trees, or a binary-heap resize (grow or shrink); distinct = distinct (header, op list)"
@@ -238,6 +239,39 @@ func exec(c hx.Case, res *hx.Result, mu *sync.Mutex) {
 				}
 				out = "ok " + strings.Join(parts, " ")
 				tags["maxdeg"] = true
+				return
+			}
+			if f[0] == "mergeother" && len(f) == 2 && mergeable {
+				// Merge with an operand that is not a heap of the receiver's type ("the new heap must have the same
+				// underlying type"): a non-empty heap of the other mergeable implementation, then the nil interface.
+				// The receiver must hold what it held (judged by the following operations and the next dump), the
+				// operand must not lose anything either.
+				d, err := strconv.Atoi(f[1])
+				if err != nil || d < 0 {
+					return
+				}
+				rd := get(d)
+				otherComp := "fibonacci"
+				if comp == "fibonacci" {
+					otherComp = "binomial"
+				}
+				other := newHeap(otherComp, 0, cmp).(heap.MergeableHeap[int, int])
+				other.Insert(-5, -50)
+				other.Insert(9, -90)
+				other.Insert(2, -20)
+				rd.h.(heap.MergeableHeap[int, int]).Merge(other)
+				rd.h.(heap.MergeableHeap[int, int]).Merge(nil)
+				out = "ok"
+				tags["merge-other-type"] = true
+				if n := rd.h.Size(); n != len(rd.bag) {
+					bad(i, "after Merge with a %s heap the receiver holds %d entries, it held %d", otherComp, n, len(rd.bag))
+				}
+				if rd.h.ContainsValue(-50) || rd.h.ContainsValue(-90) || rd.h.ContainsValue(-20) {
+					bad(i, "Merge with a %s heap moved entries into the %s heap", otherComp, comp)
+				}
+				if n := other.Size(); n != 3 || !other.ContainsValue(-50) || !other.ContainsValue(-90) || !other.ContainsValue(-20) {
+					bad(i, "Merge with a %s heap changed the operand (size %d)", otherComp, n)
+				}
 				return
 			}
 			if f[0] == "merge" && len(f) == 3 && mergeable {
@@ -474,6 +508,15 @@ func (g *gen) query(r int) {
 }
 
 func (g *gen) merge() {
+	if g.comp != "binary" && g.r.Chance(1, 12) { // an operand of another type: ignored
+		d := g.r.Intn(g.nregs)
+		g.add(fmt.Sprintf("mergeother %d", d))
+		if g.r.Chance(1, 2) {
+			g.add(fmt.Sprintf("size %d", d))
+			g.add(fmt.Sprintf("dump %d", d))
+		}
+		return
+	}
 	if g.nregs < 2 {
 		return
 	}
@@ -530,7 +573,7 @@ func genMixed(r *hx.Rand, comp string, n int, dumpEvery int) []string {
 				g.del(rg)
 			}
 			mut = true
-		case x < 70 && g.nregs > 1:
+		case x < 70 && (g.nregs > 1 || (comp != "binary" && x < 63)):
 			g.merge()
 			mut = true
 		case x < 72:
@@ -682,6 +725,9 @@ func genMergeEdges(r *hx.Rand, comp string) []string {
 				g.add(fmt.Sprintf("merge %d %d", s, d)) // the other way round
 				g.held[s] += g.held[d]
 				g.held[d] = 0
+			}
+			if r.Intn(12) == 0 {
+				g.add(fmt.Sprintf("mergeother %d", hx.Pick(r, []int{d, s}))) // an operand of another type: ignored
 			}
 			if r.Intn(3) == 0 {
 				g.query(r.Intn(g.nregs))
@@ -844,7 +890,7 @@ func Main(run *hx.Run) {
 			}
 		}
 		// mergeable: every history of length <= 6 over two registers with merges both ways
-		alphaM := []string{"ins 0 0", "ins 0 1", "ins 1 0", "ins 1 1", "del 0", "del 1", "merge 0 1", "merge 1 0"}
+		alphaM := []string{"ins 0 0", "ins 0 1", "ins 1 0", "ins 1 1", "del 0", "del 1", "merge 0 1", "merge 1 0", "mergeother 0"}
 		for _, comp := range comps[1:] {
 			for _, ori := range []string{"min7", "max"} {
 				for n := 1; n <= 6; n++ {
@@ -870,7 +916,7 @@ func Main(run *hx.Run) {
 			}
 		}
 		run.Stats.Extra["exhaustive_part"] = "binary: all histories of length<=7 over {ins k0,k1,k2; del; clear}, sizes 0..2, min and maxraw; " +
-			"binomial and fibonacci: all histories of length<=6 over two heaps {ins r k (2x2), del r, merge both ways, both heaps used on}, min7 and max, " +
+			"binomial and fibonacci: all histories of length<=6 over two heaps {ins r k (2x2), del r, merge both ways, merge with a heap of another type, both heaps used on}, min7 and max, " +
 			"and all histories of length 7..8 over {ins k0,k1,k2; del} on one heap"
 	}
 }
